@@ -75,8 +75,11 @@ def splice(x, p):
     final_nl = x.choice('final_nl', [True, False])
     tab = x.choice('tab', [None, 0, 1, 2, 3, 10, 12]) if kind != 'lua' \
         else None
-    sub = x.choice('sub', ['', 'lib/'])
-    name = sub + ('inc.lua' if kind == 'lua' else 'inc.p8')
+    # (directory and file names may themselves contain ".p8" / ".lua")
+    sub = x.choice('sub', ['', 'lib/', 'libs.p8/'])
+    base = x.choice('base', ['inc', 'inc.p8', 'old.lua']) if kind == 'lua' \
+        else 'inc'
+    name = sub + base + ('.lua' if kind == 'lua' else '.p8')
     # a non-include line that merely mentions an include must stay a line
     pre = x.bytes('pre', p.get('npre', 0))
     for k in range(len(pre)):
